@@ -171,3 +171,21 @@ Theorem sc_witness2 :
   sc_case2 sc_code 4 SvNoFin SvLie 0 8 = ([], repeat true 8, 0) /\
   sc_case2 sc_not_on_ctx 4 SvFin SvLie 4 3 = (repeat false 4, repeat false 3, 4).
 Proof. vm_compute. repeat split. Qed.
+
+(* ---- round 9: opening a stream never blocks beyond the caller's context ---- *)
+Theorem so_open_bounded md dl free_at :
+  md <> SoWaitTransport -> exists t, so_returns md dl free_at = Some t /\ t <= dl.
+Proof.
+  destruct md; intros H; [| |congruence]; cbn.
+  - exists 0. split; [reflexivity|lia].
+  - eexists. split; [reflexivity|]. destruct free_at; [apply Nat.le_min_r|lia].
+Qed.
+
+Theorem so_wait_on_transport_unbounded dl slack :
+  so_within SoWaitTransport dl slack None = false /\
+  (forall f, dl + slack < f -> so_within SoWaitTransport dl slack (Some f) = false) /\
+  so_within SoNoWait dl slack None = true.
+Proof.
+  split; [reflexivity|]. split; [|cbn; reflexivity].
+  intros f H. cbn. apply Nat.leb_gt. exact H.
+Qed.
